@@ -164,6 +164,22 @@ def main(argv=None):
         st["ok"] = False
         st["failures"].append({"kind": "driver", "detail": "model driver did not run"})
 
+    # validation of the source-to-Lean translator: the generated pure definitions, executed, against the real functions
+    srcval = None
+    try:
+        from harness import srccheck
+        if pid in srccheck.FUNCS and st["model_ok"]:
+            srcval = srccheck.check(pid, random.Random(seed + 5), gen_tier)
+            if not srcval["ok"]:
+                st["ok"] = False
+                st["failures"].append({"kind": "translator-validation",
+                                       "detail": srcval.get("error") or "Gen/Src.lean definitions disagree with the Python functions they "
+                                                 "were translated from", "cases": [list(d) for d in srcval["disagreements"][:10]]})
+    except Exception as e:                                  # noqa: BLE001
+        srcval = {"cases": 0, "ok": False, "error": repr(e)}
+        st["ok"] = False
+        st["failures"].append({"kind": "translator-validation", "detail": repr(e)})
+
     compare = getattr(mod, "compare", lambda o, m, l: o == m)
     disagreements, flagged = [], []
     for i, l in enumerate(lines):
@@ -271,6 +287,9 @@ def main(argv=None):
             "op_distribution": dist, "result_distribution": errkinds,
             "gen_changed": st.get("gen", {}).get("changed", []),
             "source_translated_functions": _src_functions(pid, st),
+            "translator_validation": ({"cases": srcval["cases"], "disagreements": srcval.get("n_disagreements", 0),
+                                       "what": "pure-mode definitions of Gen/Src.lean run through drivers/Src.lean vs the real functions"}
+                                      if srcval else None),
             "helpers_changed": changed_sources, "generator_tier": gen_tier,
             "known_findings_reconfirmed": reconfirmed,
             "lean_failures": st["failures"], "build_s": st.get("build_s"),
@@ -298,10 +317,10 @@ def main(argv=None):
 def _src_functions(pid, st):
     """The functions of /repo that harness/translate.py translated for this run and that Props/<pid>_Src.lean ties to the
     hand-written model (name, file, AST digest, translated or not)."""
-    path = os.path.join(VERIF, "lean", "BitstringModel", "Props", pid + "_Src.lean")
-    if not os.path.exists(path):
+    d = os.path.join(VERIF, "lean", "BitstringModel", "Props")
+    src = "".join(open(os.path.join(d, f)).read() for f in sorted(os.listdir(d)) if f.startswith(pid + "_Src") and f.endswith(".lean"))
+    if not src:
         return []
-    src = open(path).read()
     out = []
     for f in st.get("gen", {}).get("translated", []) or []:
         short = f["lean"].split(".")[-1]
